@@ -115,8 +115,8 @@ def origin(annotation: tp.Any) -> tp.Any:
         a = args(actual)
         actual = a[0] if a else actual
 
-    if istypealiastype(actual):
-        actual = actual.__value__
+    # Resolve aliases and the NewTypes they may stand for, however they are nested.
+    actual = _resolve_wrappers(actual)
 
     actual = tp.get_origin(actual) or actual
 
@@ -1520,11 +1520,12 @@ def unwrap(t: tp.Any) -> tp.Any:
 
 
 def _resolve_wrappers(t: tp.Any) -> tp.Any:
-    """Resolve NewType supertypes and a type alias value, as `origin()` does."""
-    t = resolve_supertype(t)
-    if istypealiastype(t):
+    """Resolve NewType supertypes and type alias values, however they are nested."""
+    while True:
+        t = resolve_supertype(t)
+        if not istypealiastype(t):
+            return t
         t = t.__value__
-    return t
 
 
 def _safe_issubclass(__cls: type, __class_or_tuple: type | tuple[type, ...]) -> bool:
